@@ -88,6 +88,23 @@ theorem size_lines_match_serialize_lines (S : Schema) (d : StructDef) :
     simp only [sizeBody, serializeBody, serializeFieldLines, ha, List.length_append, hfl]
     cases d.base.isSome <;> simp
 
+/-- `deserialize` stores every value-carrying own member into the instance: for each such member the body holds the line
+    `instance._<member> = <member>` (the members are those `serialize` writes, see `serialize_lines_cover_own_members`) -/
+theorem deserialize_assigns_every_carrying_member (S : Schema) (ty : String) (d : StructDef) (f : Field)
+    (hf : f ∈ ownFields d) (hc : f.kind.carries = true) :
+    ("instance._" ++ printerName f.name ++ " = " ++ printerName f.name) ∈ deserializeBody S ty d := by
+  unfold deserializeBody
+  simp only [List.mem_append, List.mem_map, List.mem_filter]
+  exact Or.inl (Or.inr ⟨f, ⟨hf, hc⟩, rfl⟩)
+
+/-- a concrete `deserialize` ends by returning the instance it built; an abstract `_deserialize` by returning its window -/
+theorem deserialize_last_line (S : Schema) (ty : String) (d : StructDef) :
+    (deserializeBody S ty d).getLast? =
+      some (if d.abstract then "return (size_ - len(buffer), size_)" else "return instance") := by
+  unfold deserializeBody
+  dsimp only
+  exact List.getLast?_concat ..
+
 example : emissionPlan [("A", .int 1 false), ("B", .struct { fields := [], abstract := true }), ("C", .struct { fields := [] })]
     = ["A", "B", "C", "BFactory"] := by decide
 
